@@ -42,6 +42,17 @@ pub fn run_next_op(registers: &mut Registers, mem: *mut MemoryAreas) -> Option<(
   if code_slice.len() < 1 {
     return None;
   }
+  // An instruction can straddle the end of a fetch region (0x3fff/0x4000,
+  // 0xcfff/0xd000, ...): its operand bytes then come from the next region
+  let mut straddling = [0u8; 3];
+  let code_slice = if code_slice.len() < 3 {
+    for i in 0..3 {
+      straddling[i] = memory_read_byte(mem, (index + i) as u16);
+    }
+    &straddling[..]
+  } else {
+    code_slice
+  };
   let (next_op, length, cycles) = decode(code_slice);
   let should_break = next_op.is_block_end();
   let status = run_op(next_op, registers, mem, length as u32);
